@@ -29,8 +29,23 @@ def followpos_shapes(tier):
     return out
 
 
+def quantified_nullable_groups(tier):
+    """Every quantifier applied to a group that can already match the empty text, alone and between two characters."""
+    inners = ["(a*)", "(a|b*)", "(a?b?)", "(a{0,2})", "(a*b*)", "(a|)", "((a*)?)", "(a?|b)"]
+    quants = R.QUANTS[1:] if tier != "quick" else ["?", "*", "+", "{0,1}", "{2}", "{0,2}", "{1,2}"]
+    out = []
+    for g in inners:
+        for q in quants:
+            out.append(g + q)
+            out.append("x" + g + q + "y")
+            if tier != "quick":
+                out.append(g + q + "b")
+                out.append("c" + g + q)
+    return out
+
+
 def patterns_for(tier, rng):
-    pats = R.corpus(PROP) + NULLABLE_SHAPES + followpos_shapes(tier) + list(R.EVERY_CONSTRUCT)
+    pats = R.corpus(PROP) + NULLABLE_SHAPES + followpos_shapes(tier) + quantified_nullable_groups(tier) + list(R.EVERY_CONSTRUCT)
     pats += R.small_exhaustive() if tier != "quick" else R.small_exhaustive()[::3]
     n = 120 if tier == "quick" else 2500
     for _ in range(n):
